@@ -58,8 +58,10 @@ func (s *state) Persistent() types.PersistentState {
 }
 
 func (s *state) getLog(index uint64) (*types.PooledBuffer, error) {
-	// Check the tail writer first
-	if s.tail != nil {
+	// Check the tail writer first. The writer only knows the MinIndex it was
+	// created with, so apply the current one here: indexes removed by a head
+	// truncation inside the tail segment must not be readable any more.
+	if ti := s.getTailInfo(); s.tail != nil && (ti == nil || index >= ti.MinIndex) {
 		raw, err := s.tail.GetLog(index)
 		if err != nil && err != ErrNotFound {
 			// Return actual errors since they might mask the fact that index really
